@@ -143,10 +143,15 @@ func c09Gen(g *Gen) {
 		for hi, toks := range headers(cfg) {
 			hdr := len(c09Line("<13>1", toks, nil))
 			// (a) ASCII + one rune starting j bytes before the limit + tail
-			for _, ru := range c09Runes {
+			thin := !g.Thorough() && hi >= 2 // long headers make long case lines: fewer of them in the quick tier
+			thinBy := 4
+			if cfg.maxRec > 200 {
+				thinBy = 10
+			}
+			for ri, ru := range c09Runes {
 				for j := 0; j <= 5; j++ {
-					for _, tail := range []string{"", "z", "zzé", "世世", "\xff", "\n"} {
-						if cfg.maxMsg-j < 0 {
+					for ti, tail := range []string{"", "z", "zzé", "世世", "\xff", "\n"} {
+						if cfg.maxMsg-j < 0 || (thin && (ri+j+ti)%thinBy != 0) {
 							continue
 						}
 						msg := append(asciiFill(cfg.maxMsg-j), []byte(ru+tail)...)
@@ -197,7 +202,11 @@ func c09Gen(g *Gen) {
 			}
 			// (d) random mixtures of units around the limit
 			units := []string{"a", "b", " ", "\n", "é", "世", "\U0001f600", "\xff", "\x80", "\xe4", "\xe4\xb8", "\xf0\x9f", "\xf0\x9f\x98", "\xc0\xaf", "\xed\xa0\x80", "\xf4\x90\x80\x80"}
-			for i := 0; i < g.Pick(400, 12000); i++ {
+			nmixed := g.Pick(300, 12000)
+			if thin {
+				nmixed /= thinBy
+			}
+			for i := 0; i < nmixed; i++ {
 				var msg []byte
 				target := cfg.maxMsg + r.Range(-6, 10)
 				weights := r.Intn(3)
@@ -220,7 +229,7 @@ func c09Gen(g *Gen) {
 	// ---- 5. exhaustive short strings over a small alphabet, padded to >= 32 bytes ----
 	alpha := []byte("<>1 -a")
 	maxLen := g.Pick(5, 6)
-	pads := []string{" t h a p s e mmmmmmmmmmmmmmmmmmmmmmmmmmmmmmmm", "1 t h a p s e mmmmmmmmmmmmmmmmmmmmmmmmmmmmmmmm", "xxxxxxxxxxxxxxxxxxxxxxxxxxxxxxxx"}
+	pads := []string{" t h a p s e mmmmmmmmmmmmmmmmmm", "1 t h a p s e mmmmmmmmmmmmmmmmm", "xxxxxxxxxxxxxxxxxxxxxxxxxxxxxxxx"}
 	var rec func(prefix []byte)
 	rec = func(prefix []byte) {
 		for pi, pad := range pads {
@@ -293,18 +302,23 @@ func c09Gen(g *Gen) {
 		g.Case(1, [][]byte{[]byte(head), []byte(unit), []byte(tail)},
 			[]int64{int64(c09Prod.maxMsg), int64(c09Prod.maxRec), pool(), int64(reps)})
 	}
+	bigT := func(cls string, head string, unit string, reps int, tail string) { // thorough tier only
+		if g.Thorough() {
+			big(cls, head, unit, reps, tail)
+		}
+	}
 	mm := c09Prod.maxMsg
 	stdHead := "<13>1 t h a p s e "
 	longHead := "<165>1 t " + string(bytes.Repeat([]byte("H"), 300)) + " a p s e "
 	bigCases := 0
-	bigBudget := g.Pick(14, 120)
+	bigBudget := g.Pick(4, 120)
 	for _, ru := range []string{"世", "\U0001f600", "é"} {
 		for j := 0; j <= 4; j++ {
 			for _, head := range []string{stdHead, longHead} {
 				if bigCases >= bigBudget {
 					break
 				}
-				if !g.Thorough() && !(j == 1 || (j == 3 && ru == "\U0001f600" && head == stdHead)) {
+				if !g.Thorough() && !((j == 1 && head == stdHead) || (j == 3 && ru == "\U0001f600" && head == longHead)) {
 					continue
 				}
 				big("prod-cut-rune", head, "a", mm-j, ru+"zz")
@@ -315,15 +329,15 @@ func c09Gen(g *Gen) {
 	// no ASCII in the message: 3-byte runes (1 MiB = 3*349525 + 1: the cut is inside a rune), 4-byte runes shifted by a 2-byte rune
 	big("prod-cut-nonascii", stdHead, "世", mm/3+2, "")
 	big("prod-cut-nonascii", stdHead+"é", "\U0001f600", mm/4, "\U0001f600")
-	big("prod-cut-nonascii", stdHead, "\U0001f600", mm/4+1, "")
+	bigT("prod-cut-nonascii", stdHead, "\U0001f600", mm/4+1, "")
 	// exactly at / one below / one above the limit, ASCII
-	big("prod-len", stdHead, "a", mm-1, "")
+	bigT("prod-len", stdHead, "a", mm-1, "")
 	big("prod-len", stdHead, "a", mm, "")
 	big("prod-len", stdHead, "a", mm+1, "\n")
 	// message within the limit but record at the record limit: invalid tail is cleaned
 	big("prod-reclimit", longHead, "a", mm-40, "\n世\xe4\xb8")
-	big("prod-reclimit", longHead, "b", mm-400, "世\xe4\xb8")
-	big("prod-reclimit", stdHead, "a", mm-2, "\xe4\xb8")
+	bigT("prod-reclimit", longHead, "b", mm-400, "世\xe4\xb8")
+	bigT("prod-reclimit", stdHead, "a", mm-2, "\xe4\xb8")
 	if g.Thorough() {
 		for i := 0; i < 40; i++ {
 			ru := c09Runes[r.Intn(len(c09Runes))]
